@@ -100,7 +100,7 @@ package kcache
 @*/
 
 /*@ func (*kcache._cache).doUpdate
-  props C01 C02 C06
+  props C01 C02 C06 C05
   theory cache
   requires [valid-c] (and (not (= {c} vnil)) (not (= {c.items} vnil)) (not (= {c.filter} vnil)) (not (= {c.log} vnil)))
   requires [evt] (and (not (= {evt} vnil)) (not (= (evt-res {evt}) vnil)))
@@ -163,7 +163,7 @@ package kcache
 @*/
 
 /*@ func (*kcache._cache).doSync
-  props C01 C02 C06 C07 C03
+  props C01 C02 C06 C07 C03 C05
   theory sync
   requires [valid-c] (and (not (= {c} vnil)) (not (= {c.items} vnil)) (not (= {c.filter} vnil)) (not (= {c.log} vnil)))
   requires [list-nonnil] (forall ((j Int)) (=> (and (<= 0 j) (< j (slen {list}))) (not (= (select (sarr {list}) j) vnil))))
@@ -243,14 +243,14 @@ package kcache
              (= (= (select ecount k) 0)
                 (and (= (select {dom(c.items)} k) (select (old {dom(c.items)}) k))
                      (=> (select {dom(c.items)} k) (= (select {val(c.items)} k) (select (old {val(c.items)}) k))))))))
-  exit [returns-events] (= result {events})
+  exit [link:returns-events] (= result {events})
   loop 1 inv [events-so-far-are-well-formed] (wfEvents {events})
   loop 2 inv [events-so-far-are-well-formed] (wfEvents {events})
   ensures [events-well-formed] (wfEvents result)
 @*/
 
 /*@ func (*kcache._cache).doRefilter
-  props C01 C02 C06 C07
+  props C01 C02 C06 C07 C05
   theory sync
   requires [valid-c] (and (not (= {c} vnil)) (not (= {c.items} vnil)) (not (= {c.log} vnil)) (not (= {filter} vnil)))
   requires [list-nonnil] (forall ((j Int)) (=> (and (<= 0 j) (< j (slen {list}))) (not (= (select (sarr {list}) j) vnil))))
@@ -394,7 +394,7 @@ package kcache
 @*/
 
 /*@ func (*kcache.filterSubscription).run
-  props C08 C06 C07 C11 C12 C02 C05 C10 C09
+  props C08 C06 C07 C11 C12 C02 C05 C10 C09 C15
   theory actors filters
   requires [valid-s] (and (not (= {s} vnil)) (not (= {s.parent} vnil)) (not (= {s.cache} vnil)) (not (= {s.lc} vnil))
                         (not (= {s.log} vnil)) (not (= {s.readych} vnil)) (not (= {s.refilterch} vnil)) (not (= {s.outch} vnil))
@@ -428,7 +428,7 @@ package kcache
   at call(sync) set cacheTouched := true
   at call(sync).after set synced := (ite (= $result1 vnil) (and (= $0 lastList) listAfterReady) synced)
   at call(refilter) assert [only-for-a-new-filter] isNewG
-  at call(refilter) assert [list-read-in-this-handler-once-parent-ready] (=> (= {preadych} vnil) (and (= $0 lastList) listAfterReady))
+  at call(refilter) assert [list-read-in-this-handler-once-parent-ready] (=> parentReadySeen (and (= $0 lastList) listAfterReady))
   at call(refilter) set cacheTouched := true
   at call(refilter).after set synced := (ite (= $result1 vnil) (and (= $0 lastList) listAfterReady) synced)
   at call(refilter).after set cacheFilter := (ite (= $result1 vnil) $1 cacheFilter)
@@ -444,7 +444,7 @@ package kcache
   at call(distributeEvents) set ndist := (+ ndist 1)
   at call(ShutdownInitiated) assert [shutdown-initiated-once] (= lc 0)
   at call(ShutdownInitiated) set lc := 1
-  at close(s.readych) assert [parent-ready-observed] (= {preadych} vnil)
+  at close(s.readych) assert [parent-ready-observed] parentReadySeen
   at close(s.readych) assert [filter-supplied-if-deferred] (=> {s.deferReady} filterSupplied)
   at close(s.readych) assert [own-cache-holds-filtered-parent-content] (or synced (and (not cacheTouched) (rejectsAll {s.filter})))
   at close(s.outch) assert [after-the-loop] (= lc 1)
@@ -483,6 +483,7 @@ package kcache
   ghost completed : Bool := false
   at call(ShutdownCompleted) set completed := true
   exit [completion-is-always-signalled-when-the-actor-returns] completed
+  watches [the-actor-always-listens-for-shutdown-requests-and-for-its-parents-events] ShutdownRequest Events
 @*/
 
 /*@ nonnil-global kcache.errInvalidType kcache.ErrNotRunning
@@ -649,6 +650,7 @@ package kcache
   ghost completed : Bool := false
   at call(ShutdownCompleted) set completed := true
   exit [completion-is-always-signalled-when-the-actor-returns] completed
+  watches [the-actor-always-listens-for-shutdown-its-children-list-results-and-watch-events] ShutdownRequest Done Result events
 @*/
 
 /*@ neverclosed kcache._subscription.inch
@@ -685,6 +687,7 @@ package kcache
   ghost completed : Bool := false
   at call(ShutdownCompleted) set completed := true
   exit [completion-is-always-signalled-when-the-actor-returns] completed
+  watches [the-actor-always-listens-for-shutdown-requests-and-incoming-events] ShutdownRequest s.inch
 @*/
 
 /*@ func (*kcache._subscription).send
@@ -980,7 +983,7 @@ package kcache
 @*/
 
 /*@ func (*kcache._lister).executeList
-  props C03 C14
+  props C03 C14 C08
   theory lists
   requires (and (not (= {l} vnil)) (not (= {l.client} vnil)) (not (= {l.log} vnil)))
   ghost clientList : V := vnil
@@ -1456,6 +1459,7 @@ package kcache
   at call(ShutdownInitiated) assert [stops-only-when-the-parent-closed-its-events] parentClosed
   at recv(unsubscribech) assert [drain-waits-only-while-subscriptions-remain] (=> (= lc 1) (exists ((x V)) (select {dom(s.subscriptions)} x)))
   at call(ShutdownCompleted) assert [every-subscription-has-unsubscribed] (forall ((x V)) (not (select {dom(s.subscriptions)} x)))
+  watches [the-actor-always-listens-to-its-parents-events-and-to-subscribe-and-unsubscribe-requests] Events s.subscribech s.unsubscribech
 @*/
 
 /*@ func (*kcache.publisher).Subscribe
